@@ -230,19 +230,43 @@ func programs() []*Program {
 
 	// kinds x contexts: oneofs, embeds, time/duration, float/uint64 inside map values, list elements
 	// and non-nullable nested messages
+	deepMsgs := func() (es, ep, dv, dl, dn *M) {
+		es = msg("ES", nil, fld("EStr", TString), fld("ENum", TUint32))
+		ep = msg("EP", nil, fld("PStr", TString), fld("PList", TString).rep())
+		dv = msg("DV", []string{"Pick"}, fld("A", TString).oneof(0), mfld("B", "Leaf").oneof(0), fld("C", TFloat).oneof(0), fld("D", TUint64).oneof(0),
+			tsfld("Ts"), mfld("ES", "ES").nonnull().embed())
+		dl = msg("DL", nil, mfld("EP", "EP").embed(), dufld("Du"), fld("F32", TFloat), fld("U64", TUint64), efld("Mode", "Mode"), fld("Raw", TBytes))
+		dn = msg("DN", []string{"choice"}, fld("x", TInt32).oneof(0), efld("y", "Mode").oneof(0), tsfld("Tsv").nonnull(), mapfld("Leaves", mfld("v", "Leaf")),
+			fld("DuI", TInt64).stddur())
+		return
+	}
+	deepBounds := map[string][2]int{"refresh": {1, 1}, "echo": {1, 1}, "from": {1, 1}, "rt": {2, 1}, "corrupt": {1, 1}}
 	add(&Program{Name: "P-deep", Quick: false, Bounds: map[string][2]int{"refresh": {2, 1}, "echo": {2, 1}, "from": {2, 1}, "rt": {2, 1}, "corrupt": {1, 1}},
 		File: func() *FileSpec {
-			es := msg("ES", nil, fld("EStr", TString), fld("ENum", TUint32))
-			ep := msg("EP", nil, fld("PStr", TString), fld("PList", TString).rep())
-			dv := msg("DV", []string{"Pick"}, fld("A", TString).oneof(0), mfld("B", "Leaf").oneof(0), fld("C", TFloat).oneof(0), fld("D", TUint64).oneof(0),
-				tsfld("Ts"), mfld("ES", "ES").nonnull().embed())
-			dl := msg("DL", nil, mfld("EP", "EP").embed(), dufld("Du"), fld("F32", TFloat), fld("U64", TUint64), efld("Mode", "Mode"), fld("Raw", TBytes))
-			dn := msg("DN", []string{"choice"}, fld("x", TInt32).oneof(0), efld("y", "Mode").oneof(0), tsfld("Tsv").nonnull(), mapfld("Leaves", mfld("v", "Leaf")),
-				fld("DuI", TInt64).stddur())
+			es, ep, dv, dl, dn := deepMsgs()
 			d := msg("D", nil, mapfld("M", mfld("v", "DV")), mfld("L", "DL").rep(), mfld("N", "DN").nonnull(), mfld("NP", "DN"))
 			return &FileSpec{Name: "p.proto", Enums: []*d2Enum{modeEnum()}, Msgs: []*M{leafMsg(), es, ep, dv, dl, dn, d}}
 		},
 		Cfg: func() *Config { return baseConfig("D") }})
+	// the three parts of P-deep as separate small programs for the quick tier
+	add(&Program{Name: "P-deep-m", Quick: true, Bounds: deepBounds,
+		File: func() *FileSpec {
+			es, _, dv, _, _ := deepMsgs()
+			return &FileSpec{Name: "p.proto", Enums: []*d2Enum{modeEnum()}, Msgs: []*M{leafMsg(), es, dv, msg("DM", nil, mapfld("M", mfld("v", "DV")), mfld("One", "DV"))}}
+		},
+		Cfg: func() *Config { return baseConfig("DM") }})
+	add(&Program{Name: "P-deep-l", Quick: true, Bounds: deepBounds,
+		File: func() *FileSpec {
+			_, ep, _, dl, _ := deepMsgs()
+			return &FileSpec{Name: "p.proto", Enums: []*d2Enum{modeEnum()}, Msgs: []*M{ep, dl, msg("DLs", nil, mfld("L", "DL").rep(), mfld("LV", "DL").nonnull().rep())}}
+		},
+		Cfg: func() *Config { return baseConfig("DLs") }})
+	add(&Program{Name: "P-deep-n", Quick: true, Bounds: deepBounds,
+		File: func() *FileSpec {
+			_, _, _, _, dn := deepMsgs()
+			return &FileSpec{Name: "p.proto", Enums: []*d2Enum{modeEnum()}, Msgs: []*M{leafMsg(), dn, msg("DNs", nil, mfld("N", "DN").nonnull(), mfld("NP", "DN"))}}
+		},
+		Cfg: func() *Config { return baseConfig("DNs") }})
 
 	// a nullable embedded message with scalar, list, object and map children next to a second one
 	add(&Program{Name: "P-embed-mix", Quick: true, Bounds: map[string][2]int{"refresh": {2, 1}, "echo": {2, 1}},
